@@ -230,7 +230,7 @@ fn fn_def_json<'tcx>(tcx: TyCtxt<'tcx>, did: DefId, args: GenericArgsRef<'tcx>) 
     ])
 }
 
-fn constval_json<'tcx>(tcx: TyCtxt<'tcx>, c: MirConst<'tcx>, val: ConstValue, ty: Ty<'tcx>) -> J {
+fn constval_json<'tcx>(tcx: TyCtxt<'tcx>, _c: MirConst<'tcx>, val: ConstValue, ty: Ty<'tcx>) -> J {
     match val {
         ConstValue::Scalar(mir::interpret::Scalar::Int(si)) => scalar_json(tcx, si, ty),
         ConstValue::Scalar(_) => J::Obj(vec![("opaque", s("ptr")), ("ty", s(ty_str(ty)))]),
@@ -250,7 +250,11 @@ fn constval_json<'tcx>(tcx: TyCtxt<'tcx>, c: MirConst<'tcx>, val: ConstValue, ty
                 J::Obj(vec![("opaque", s("slice")), ("ty", s(ty_str(ty)))])
             }
         }
-        ConstValue::Indirect { .. } => J::Obj(vec![("opaque", s("indirect")), ("ty", s(ty_str(ty)))]),
+        ConstValue::Indirect { .. } => {
+            // byte-string / array constants: take the compiler's own pretty-printed value
+            let repr = ty::print::with_no_trimmed_paths!(format!("{}", MirConst::Val(val, ty)));
+            J::Obj(vec![("opaque", s("indirect")), ("ty", s(ty_str(ty))), ("repr", s(repr))])
+        }
     }
 }
 
@@ -788,6 +792,19 @@ fn export_crate<'tcx>(tcx: TyCtxt<'tcx>) -> J {
                     ("self_ty", s(ty_str(self_ty))),
                     ("self_adt", adt_of(tcx, self_ty)),
                     ("auto_derived", J::Bool(tcx.is_automatically_derived(did))),
+                    ("derive", {
+                        let sp = tcx.def_span(did);
+                        if sp.from_expansion() {
+                            let ed = sp.ctxt().outer_expn_data();
+                            match ed.kind {
+                                rustc_span::ExpnKind::Macro(rustc_span::MacroKind::Derive, name) => s(name.to_string()),
+                                rustc_span::ExpnKind::Macro(_, name) => s(format!("macro:{}", name)),
+                                _ => J::Null,
+                            }
+                        } else {
+                            J::Null
+                        }
+                    }),
                     ("items", J::Arr(items)),
                     ("span", s(span_str(tcx, tcx.def_span(did)))),
                 ]));
